@@ -632,6 +632,9 @@ func feasibleWrites(x *Run, finals []*State) []string {
 					}
 				}
 				r := solve(b.String(), 3, false, []string{"z3-new"})
+				if r.Status != "unsat" && r.Status != "sat" {
+					r = solve(b.String(), 10, false, nil)
+				}
 				if r.Status == "unsat" {
 					status[i] = 2
 				} else {
